@@ -85,9 +85,127 @@ pub fn progressive_shapes() -> Vec<Baseline> {
     out
 }
 
+/// Scaling shapes: structures replicated K (tracks) x M (fragments) times, and codec configuration records whose inner
+/// length fields declare more than their box holds, replicated over K tracks in front of a shared patterned filler.
+/// A cost that is linear per replica but touches shared bytes or shared tables is quadratic in the file length; the
+/// linear bounds of C07/C08 (64n+.., 128n+..) are exceeded only at these scales, never in the small baselines.
+pub fn scaling_shapes() -> Vec<Baseline> {
+    use crate::refmp4::tree::{Body, Node};
+    let mut out = vec![];
+    // (a) K tracks x M movie fragments; each fragment holds no traf, or one traf (tracks taken round-robin)
+    for (k, mf) in [(1usize, 4096usize), (16, 1024), (128, 2048), (150, 3000)] {
+        for with_traf in [false, true] {
+            let m = LFragMovie {
+                movie_ts: 1000,
+                tracks: (0..k).map(|i| LFragTrack { id: i as u32 + 1, codec: Codec::Aac, timescale: 48000, trex_default_duration: 1024 }).collect(),
+                fragments: vec![],
+                mehd: None,
+                large_moof: false,
+                offsets_only: false,
+            };
+            let mut all = init_nodes(&m);
+            for f in 0..mf {
+                let mut kids = vec![mfhd(f as u32 + 1)];
+                if with_traf {
+                    let th = Tfhd { version: 0, extra_flags: 0x020000, track_id: (f % k) as u32 + 1, base_data_offset: None, sample_description_index: None, default_sample_duration: None, default_sample_size: Some(1), default_sample_flags: None };
+                    kids.push(Node::kids(b"traf", vec![tfhd(&th), tfdt(0, f as u64 * 1024)]));
+                }
+                all.push(Node::kids(b"moof", kids));
+            }
+            out.push(Baseline { name: format!("shape:scale:tracks{}:moofs{}:{}", k, mf, if with_traf { "one_traf_each" } else { "no_traf" }), bytes: serialize(&all).0, init: None, pairs: false });
+        }
+    }
+    // (b) K tracks whose decoder configuration record declares a first parameter set of 65535 bytes (and further ones)
+    // although the box ends right after the length field; behind the movie header a filler of 0x01 bytes (every
+    // length read there is 0x0101).  hvcC: N parameter sets; avcC: 31 + 1.
+    for (codec, k, nals) in [(Codec::Hevc, 1usize, 2000u16), (Codec::Hevc, 32, 2000), (Codec::Hevc, 128, 2000), (Codec::Avc, 1, 31), (Codec::Avc, 128, 31)] {
+        let tracks: Vec<LTrack> = (0..k).map(|i| LTrack::simple(i as u32 + 1, codec, 1000, vec![LSample { size: 1, delta: 10, cts: 0, sync: true }], vec![1])).collect();
+        let mut m = LMovie::new(1000, tracks);
+        m.mdat_first = true;
+        let filler = 65535 + nals as usize * 259 + 70000;
+        m.top_back = vec![Node::leaf(b"free", vec![1u8; filler])];
+        let mut ns = nodes(&m);
+        fn patch(n: &mut Node, nals: u16) {
+            if &n.cc == b"hvcC" {
+                if let Body::Leaf(p) = &mut n.body {
+                    // ... numOfArrays, then per array: type, numNalus(2), per NAL: length(2), bytes
+                    let fixed = 22;
+                    p.truncate(fixed);
+                    p.push(1); // one array
+                    p.push(0xa0); // complete, type 32
+                    p.extend_from_slice(&nals.to_be_bytes());
+                    p.extend_from_slice(&0xffffu16.to_be_bytes());
+                }
+            } else if &n.cc == b"avcC" {
+                if let Body::Leaf(p) = &mut n.body {
+                    p.truncate(5);
+                    p.push(0xe0 | (nals.min(31) as u8));
+                    p.extend_from_slice(&0xffffu16.to_be_bytes());
+                }
+            }
+            if let Some(k) = n.children_mut() {
+                for c in k.iter_mut() {
+                    patch(c, nals);
+                }
+            }
+        }
+        for n in ns.iter_mut() {
+            patch(n, nals);
+        }
+        out.push(Baseline { name: format!("shape:scale:overreading_{}_x{}", if codec == Codec::Hevc { "hvcC" } else { "avcC" }, k), bytes: serialize(&ns).0, init: None, pairs: false });
+    }
+    out
+}
+
+/// Duplicate shapes: every box of every baseline once more, as a sibling right behind itself (ancestor sizes adjusted):
+/// several boxes of a kind where a reader expects one.
+pub fn duplicate_shapes(baselines: &[Baseline]) -> Vec<Baseline> {
+    fn walk(nodes: &[crate::refmp4::parse::Node], anc: &mut Vec<u64>, bytes: &[u8], name: &str, path: String, out: &mut Vec<Baseline>, init: &Option<Vec<u8>>) {
+        for nd in nodes {
+            let p = format!("{}/{}", path, String::from_utf8_lossy(&nd.cc));
+            if nd.header == 8 && nd.size <= 4096 && anc.len() >= 1 {
+                let start = nd.start as usize;
+                let end = start + nd.size;
+                let mut b = bytes[..end].to_vec();
+                b.extend_from_slice(&bytes[start..end]);
+                b.extend_from_slice(&bytes[end..]);
+                let mut ok = true;
+                for a in anc.iter() {
+                    let a = *a as usize;
+                    let s = u32::from_be_bytes([b[a], b[a + 1], b[a + 2], b[a + 3]]);
+                    if s == 1 || s == 0 {
+                        ok = false;
+                        break;
+                    }
+                    let s2 = s as u64 + nd.size as u64;
+                    if s2 > u32::MAX as u64 {
+                        ok = false;
+                        break;
+                    }
+                    b[a..a + 4].copy_from_slice(&(s2 as u32).to_be_bytes());
+                }
+                if ok {
+                    out.push(Baseline { name: format!("shape:dup:{}:{}@{}", name, p, nd.start), bytes: b, init: init.clone(), pairs: false });
+                }
+            }
+            anc.push(nd.start);
+            walk(&nd.kids, anc, bytes, name, p, out, init);
+            anc.pop();
+        }
+    }
+    let mut out = vec![];
+    for b in baselines {
+        if let Ok(t) = crate::refmp4::parse::tree(&b.bytes, 0) {
+            walk(&t, &mut vec![], &b.bytes, &b.name, String::new(), &mut out, &b.init);
+        }
+    }
+    out
+}
+
 pub fn all() -> Vec<Baseline> {
     let mut v = metadata_shapes();
     v.extend(fragment_shapes());
     v.extend(progressive_shapes());
+    v.extend(scaling_shapes());
     v
 }
